@@ -11,6 +11,14 @@ import itertools, math
 import numpy as np
 
 
+class SelectionStarved(Exception):
+    """bounded progress: one weighted selection saw more consecutive rejections than any rejection bound that is not stale by orders of
+    magnitude can produce (with an exact bound the expected number of proposals is at most the number of candidates)"""
+    def __init__(self, n):
+        Exception.__init__(self, '%d consecutive rejected proposals' % n)
+        self.n = n
+
+
 class DepthExceeded(Exception):
     pass
 
@@ -207,6 +215,8 @@ class RngProxy(object):
         self.n_dust = 0
         self._ticks = 0
         self.min_prob = 1e-12
+        self.starve_after = None      # seeded mode only: raise SelectionStarved after this many consecutive rejections
+        self._rejected_in_a_row = 0
         self._cells = 0
         self.copy_pop = copy_pop
 
@@ -230,6 +240,10 @@ class RngProxy(object):
     def _decide_lt(self, cell, thr):
         if self.driver is None:
             out = cell.u < thr
+            if self.starve_after is not None:
+                self._rejected_in_a_row = 0 if out else self._rejected_in_a_row + 1
+                if self._rejected_in_a_row > self.starve_after:
+                    raise SelectionStarved(self._rejected_in_a_row)
         else:
             lo, hi = cell.lo, cell.hi
             if thr <= lo:
